@@ -11,9 +11,9 @@ props = [json.loads(l)["id"] for l in open(os.path.join(V, "properties.jsonl"))]
 m = {
  "version": 1,
  "setup_cmd": "python3 tools/setup.py",
- "hooks": {"guard": "SUPLA_VERIF_HOOKS", "enable": "harness builds pass -DSUPLA_VERIF_HOOKS (tools/common.py fw_flags); the hooks are observation calls (two in supla_esp_rs_fb.c, one in supla_esp_gpio.c supla_esp_gpio_relay_hi, two in mqtt.c __mqtt_recv) implemented by harness/sdk/fwglue.c",
+ "hooks": {"guard": "SUPLA_VERIF_HOOKS", "enable": "harness builds pass -DSUPLA_VERIF_HOOKS (tools/common.py fw_flags); the hooks are observation calls (two in supla_esp_rs_fb.c, one in supla_esp_gpio.c supla_esp_gpio_relay_hi, two in mqtt.c __mqtt_recv, one in supla_esp_cfgmode.c supla_esp_parse_vars) implemented by harness/sdk/fwglue.c",
            "baseline_off_cmd": "cmake --build /repo/_build && ctest --test-dir /repo/_build -j8 --timeout 900",
-           "source_commits": ["b9317a8", "92de6c7", "9a2bc4b"], "add_only": True},
+           "source_commits": ["b9317a8", "92de6c7", "9a2bc4b", "ce6c071"], "add_only": True},
  "engines": [{"name": "lean4+correspondence", "path": "tools/check.py", "serves_properties": sorted(CHECKS),
               "kind_free_text": "Lean 4 theorems over executable models (lean/SuplaVerif), constants/tables regenerated from /repo by tools/extract.py, models run against the real translation units on the same ops files (harness/), direct property monitors for replays"}],
  "checks": [], "not_applicable": [],
